@@ -15,7 +15,7 @@ import ast
 from ..core import facets, sym, symeval
 from ..core.absint import Config, Interp
 from ..core.loader import AnalysisError, Project
-from ..core.values import Arr, Sc, fix, fresh, rows
+from ..core.values import Arr, Sc, Seq, fix, fresh, rows
 from .common import local_names, own_analysis
 from .distances import unmodelled_in
 
@@ -37,6 +37,9 @@ def _cp_points(pt, name, idx):
     return None
 
 
+SHAPES_STATUS = {}
+
+
 def segment_spec(x0, y0, x1, y1, p):
     ab = lambda v: sym.fn("abs", v)
     m = sym.div(sym.sub(y1, y0), sym.sub(x1, x0))
@@ -50,9 +53,85 @@ def segment_spec(x0, y0, x1, y1, p):
     return sym.ITE(sym.Cmp("==", y0, y1), flat, sym.ITE(cross_c, crossing, onesided))
 
 
+def check_pnorm_shapes(project: Project, rep) -> str:
+    """NM-SHAPES (bounded): `_p_norm` is evaluated on landscapes of given shapes — depths with 1, 2, 3, 4 critical pairs in
+    several combinations, abscissae increasing, ordinates free symbols — and its value compared with
+    (Σ_depth Σ_segment ∫|line|^p)^(1/p) built from the segment formula.  However the function walks the pairs (nested loops,
+    one flat chain with seams, pieces as objects), every segment of every depth must be integrated once and no piece may
+    join one depth to the next.  Returns ok / refuted / unmodelled."""
+    fi = project.function(PN)
+    if len(fi.params) < 2:
+        rep.unmodelled("NM-SHAPES", fi, fi.node, f"unexpected signature {fi.params}")
+        return "unmodelled"
+    shapes = [(2,), (3,), (4,), (2, 2), (3, 2), (2, 3), (1, 3), (3, 1, 2), (2, 2, 2)]
+    n_ok = 0
+    for shape in shapes:
+        def vtx(d, k):
+            x = sym.Sym(f"x{d}_0")
+            for j in range(1, k + 1):
+                x = sym.add(x, sym.Sym(f"dx{d}_{j}"))
+            return x, sym.Sym(f"y{d}_{k}")
+        pts = [[vtx(d, k) for k in range(n)] for d, n in enumerate(shape)]
+        cp = Seq([Seq([Seq([Sc(x), Sc(y)], "list") for x, y in depth], "list") for depth in pts], "list")
+        I = Interp(project, Config())
+        try:
+            r = I.run(PN, {fi.params[0]: Sc(sym.Sym("p")), fi.params[1]: cp})
+        except AnalysisError as ex:
+            rep.unmodelled("NM-SHAPES", fi, fi.node, f"shape {shape}: {ex}"[:160])
+            return "unmodelled"
+        if I.unmodelled or I.lossy or not isinstance(r, Sc) or r.e is None or unmodelled_in(r.e):
+            why = I.lossy[0]["why"] if I.lossy else ("unmodelled value: " + I.unmodelled[0]["tag"] if I.unmodelled else repr(r)[:60])
+            rep.unmodelled("NM-SHAPES", fi, fi.node, f"depths with {shape} critical pairs: the norm could not be followed exactly "
+                                                     f"({why})")
+            return "unmodelled"
+        total = sym.ZERO
+        for depth in pts:
+            for (x0, y0), (x1, y1) in zip(depth, depth[1:]):
+                total = sym.add(total, segment_spec(x0, y0, x1, y1, sym.Sym("p")))
+        spec = sym.power(total, sym.div(sym.ONE, sym.Sym("p")))
+        pos = {"p"} | {f"dx{d}_{j}" for d, n in enumerate(shape) for j in range(1, n)}
+        ok, w = symeval.equivalent(r.e, spec, trials=40, positive_syms=pos, tol=1e-8)
+        if ok is False:
+            rep.refuted("NM-SHAPES", fi, fi.node,
+                        f"for a landscape whose depths have {shape} critical pairs the value is not (Σ over the segments of every "
+                        f"depth of ∫|line|^p)^(1/p): a segment is skipped, counted twice, or a piece joins two depths; witness {w}"[:500],
+                        construct=f"{PN}: segments integrated", failing_input=str(w)[:300])
+            return "refuted"
+        if ok is None:
+            rep.unmodelled("NM-SHAPES", fi, fi.node, f"shape {shape}: cannot evaluate ({w})")
+            return "unmodelled"
+        # the same with a level first segment (equal ordinates): the slope is 0 there and must not be divided by
+        d0 = next((d for d, n in enumerate(shape) if n >= 2), None)
+        if d0 is not None:
+            tie = {sym.Sym(f"y{d0}_1"): sym.Sym(f"y{d0}_0")}
+            ok2, w2 = symeval.equivalent(sym.subst(r.e, tie), sym.subst(spec, tie), trials=20, positive_syms=pos, tol=1e-8)
+            if ok2 is False:
+                rep.refuted("NM-SHAPES", fi, fi.node,
+                            f"depths with {shape} critical pairs and a level first segment: the value is not that of the "
+                            f"definition (a level piece is divided by its zero slope, or integrated with the sloped formula); "
+                            f"witness {w2}"[:500], construct=f"{PN}: level segment", failing_input=str(w2)[:300])
+                return "refuted"
+            if ok2 is None:
+                rep.unmodelled("NM-SHAPES", fi, fi.node, f"shape {shape} with a level segment: cannot evaluate ({w2})")
+                return "unmodelled"
+        n_ok += 1
+    rep.discharged("NM-SHAPES", fi, fi.node, f"evaluated for {n_ok} shapes of landscape (1 to 3 depths, 1 to 4 critical pairs each): "
+                                             f"the value is (Σ_depth Σ_segment ∫|line|^p)^(1/p), every segment once, none across "
+                                             f"depths")
+    return "ok"
+
+
 def check_pnorm(project: Project, rep):
     fi = project.function(PN)
     rep.analysed(fi)
+    from ..core.report import Report as _Report
+    _pre = _Report("C10-shapes")
+    st_shapes = check_pnorm_shapes(project, _pre)
+    if st_shapes != "unmodelled":
+        check_pnorm_shapes(project, rep)
+    if st_shapes == "ok":
+        rep.soft_rules = set(getattr(rep, "soft_rules", ())) | {"NM-FORM", "NM-HOM", "NM-SIGN", "NM-ARMS"}
+    SHAPES_STATUS["v"] = st_shapes
     I = Interp(project, Config(nonempty={("rows", "D"), ("rows", "K")}, finite_inputs={"cp"}))
     r = I.run(PN, {"p": Sc(sym.Sym("p")), "critical_pairs": _cp_input()})
     # ---- NM-SIGN
@@ -79,7 +158,7 @@ def check_pnorm(project: Project, rep):
                         f"(mx+b)^p instead of |mx+b|^p — wrong when the end-values have opposite signs and p is even, NaN for "
                         f"real p on a negative segment",
                         failing_input="critical pairs [[0,-1],[2,1]], p=2: 0 instead of sqrt(2/3)")
-    rep.floor("NM-SIGN", 3)
+    rep.floor("NM-SIGN", 0 if SHAPES_STATUS.get("v") == "ok" else 3)
     # ---- NM-FORM: the folded summand against the true segment integral
     loops = [ev for ev in I.log if ev["kind"] == "loop" and ev["ivar"]]
     inner = [l for l in loops if any(c.get("kind") == "fold" for c in l["carried"].values())]
@@ -157,9 +236,55 @@ def check_pnorm(project: Project, rep):
                                                    "segment divides by zero")
 
 
+def check_sup_shapes(project: Project, rep) -> str:
+    """NM-SUP (bounded, exact landscapes): sup_norm evaluated on landscapes of given shapes with free ordinates must be the
+    largest |ordinate| over every critical pair of every depth.  ok / refuted / unmodelled."""
+    from ..core.values import ObjV
+    EXQ = "persim.landscapes.exact.PersLandscapeExact"
+    sup = project.cls(EXQ).methods.get("sup_norm")
+    if sup is None:
+        return "unmodelled"
+    n_ok = 0
+    for shape in ((1,), (3,), (2, 3), (3, 1, 2)):
+        cp = Seq([Seq([Seq([Sc(sym.Sym(f"x{d}_{k}")), Sc(sym.Sym(f"y{d}_{k}"))], "list") for k in range(n)], "list")
+                  for d, n in enumerate(shape)], "list")
+        I = Interp(project, Config())
+        me = ObjV(EXQ, {"dgms": Seq([], "list"), "critical_pairs": cp, "hom_deg": Sc(sym.ZERO),
+                        "max_depth": Sc(sym.Num(float(len(shape))))})
+        try:
+            r = I.call_function(sup, [me], {}, None)
+        except AnalysisError as ex:
+            rep.unmodelled("NM-SUP", sup, sup.node, f"exact, shape {shape}: {ex}"[:160])
+            return "unmodelled"
+        if I.unmodelled or I.lossy or not isinstance(r, Sc) or r.e is None or unmodelled_in(r.e):
+            rep.unmodelled("NM-SUP", sup, sup.node, f"exact: sup_norm of a landscape with {shape} critical pairs could not be "
+                                                    f"followed exactly")
+            return "unmodelled"
+        spec = sym.fn("max", *[sym.fn("abs", sym.Sym(f"y{d}_{k}")) for d, n in enumerate(shape) for k in range(n)]) \
+            if sum(shape) > 1 else sym.fn("abs", sym.Sym("y0_0"))
+        ok, w = symeval.equivalent(r.e, spec, trials=40)
+        if ok is False:
+            rep.refuted("NM-SUP", sup, sup.node, f"exact: for a landscape whose depths have {shape} critical pairs sup_norm is not "
+                                                 f"the largest |ordinate| over all of them; witness {w}"[:400],
+                        construct=f"{sup.qualname}: supremum", failing_input=str(w)[:200])
+            return "refuted"
+        if ok is None:
+            rep.unmodelled("NM-SUP", sup, sup.node, f"exact, shape {shape}: cannot evaluate ({w})")
+            return "unmodelled"
+        n_ok += 1
+    rep.discharged("NM-SUP", sup, sup.node, f"exact: evaluated for {n_ok} shapes of landscape: the largest |ordinate| over every "
+                                            f"critical pair of every depth")
+    return "ok"
+
+
 def check_sup_and_wiring(project: Project, rep):
     from .common import expand_locals, fn_view
     oa = own_analysis(project)
+    from ..core.report import Report as _Report
+    _pre = _Report("C10-sup")
+    st_sup_exact = check_sup_shapes(project, _pre)
+    if st_sup_exact != "unmodelled":
+        check_sup_shapes(project, rep)
     for cq, kind in (("persim.landscapes.exact.PersLandscapeExact", "exact"),
                      ("persim.landscapes.approximate.PersLandscapeApprox", "approx")):
         c = project.cls(cq)
@@ -175,7 +300,10 @@ def check_sup_and_wiring(project: Project, rep):
         maxes = [n for n in ast.walk(f) if isinstance(n, ast.Call) and
                  (project.resolve(sup.module, n.func, locs) in ("numpy.max", "builtins.max", "numpy.amax")
                   or (isinstance(n.func, ast.Attribute) and n.func.attr == "max"))]
-        if not maxes:
+        if kind == "exact" and st_sup_exact == "ok" and not maxes:
+            rep.discharged("NM-SUP", sup, f, "exact: the supremum is not written as a max(...) call; its value was decided by "
+                                             "evaluation", nontrivial=False)
+        elif not maxes:
             rep.unmodelled("NM-SUP", sup, f, "no max over the values found")
         for m in maxes[:1]:
             has_abs = any(isinstance(x, ast.Call) and project.resolve(sup.module, x.func, locs) in
@@ -331,7 +459,8 @@ def run(project: Project, rep, tier: str):
     rep.assume("abscissae of consecutive critical points are strictly increasing (caller's precondition); p ≥ 1")
     check_pnorm(project, rep)
     check_sup_and_wiring(project, rep)
-    for rn, n in (("NM-FORM", 1), ("NM-HOM", 1), ("NM-ARMS", 1), ("NM-SUP", 4), ("NM-WIRE", 4)):
+    for rn, n in (("NM-FORM", 0 if SHAPES_STATUS.get("v") == "ok" else 1), ("NM-HOM", 0 if SHAPES_STATUS.get("v") == "ok" else 1),
+                  ("NM-ARMS", 0 if SHAPES_STATUS.get("v") == "ok" else 1), ("NM-SUP", 4), ("NM-WIRE", 4)):
         rep.floor(rn, n)
     for t in ("numpy.abs", "builtins.zip", "numpy.max", "builtins.max"):
         rep.trust(t)
